@@ -404,7 +404,8 @@ func getPeerNsNameFormat(peer Peer) string {
 // isPeerFocusWorkload returns true if focus-workload flag is not used (each peer is included),
 // or if the focus-workload is equal to peer's name
 func (ca *ConnlistAnalyzer) isPeerFocusWorkload(peer Peer) bool {
-	return ca.focusWorkload == "" || peer.Name() == ca.focusWorkload || getPeerNsNameFormat(peer) == ca.focusWorkload
+	return ca.focusWorkload == "" || peer.Name() == ca.focusWorkload ||
+		(!peer.IsPeerIPType() && getPeerNsNameFormat(peer) == ca.focusWorkload) // an ip-block has no name, its ns/name format is "/"
 }
 
 func convertEvalPeersToConnlistPeer(peers []eval.Peer) []Peer {
